@@ -76,6 +76,7 @@ pub fn sc_signature(sc: &StreamScenario) -> u64 {
     }
     step(&mut h, &sc.default_read);
     h.u64(sc.op as u64);
+    h.u64(sc.vectored as u64);
     h.u64(sc.opts.surface as u64);
     h.u64(sc.opts.kind as u64);
     h.u64(sc.opts.case_insensitive as u64);
